@@ -879,7 +879,7 @@ Proof.
     destruct (get_client route c key s) as [[[osv k]|e] s1]; cbn [snd fst] in *; [|split; [exact I1|intros; discriminate]].
     assert (R1 : Routed b s1) by (intros Hin; apply Hmem, Hr, Hin).
     destruct osv as [sv'|]; [|apply IH; assumption].
-    apply IH; [exact I1|apply batch_add_nodup, Hn|apply batch_add_routed; [exact R1|apply (Hm sv' k s1 eq_refl)]].
+    apply IH; [exact I1|rewrite batch_put_keys; apply batch_add_nodup, Hn|unfold Routed; rewrite batch_put_keys; apply batch_add_routed; [exact R1|apply (Hm sv' k s1 eq_refl)]].
 Qed.
 Lemma run_set_inv args : forall bs failed s, Inv s -> NoDup (map fst bs) -> Routed bs s -> Inv (snd (run_set c args bs failed s)).
 Proof.
